@@ -157,6 +157,67 @@ def outcomeJ (o : Outcome) : Json :=
     ("written", Json.arr (o.written.map fun w =>
       Json.mkObj [("hist", posix w.histRoot), ("number", w.number), ("gen", genJ w.gen)]).toArray)]
 
+/-! ### XML layer (C10 / C11) -/
+
+open MhlModel.Xml in
+def jostr (j : Json) (k : String) : Option String :=
+  match (j.getObjVal? k).toOption with
+  | some (.str s) => some s
+  | _ => none
+
+open MhlModel.Xml in
+def xentryOf (j : Json) : XEntry :=
+  { fmt := jstr j "fmt", digest := jstr j "digest", action := jostr j "action", hashdate := jostr j "hashdate", shash := jostr j "shash" }
+
+open MhlModel.Xml in
+def xrecordOf (j : Json) : XRecord :=
+  { path := jstr j "path", isDir := jbool j "isDir", size := (j.getObjValAs? Nat "size").toOption,
+    lastmod := jostr j "lastmod", prev := jostr j "prev", entries := (jarr j "entries").toList.map xentryOf }
+
+open MhlModel.Xml in
+def xgenOf (j : Json) : XGen :=
+  let c := (j.getObjVal? "creator").toOption.getD Json.null
+  { creator := { creationdate := jostr c "creationdate", hostname := jostr c "hostname", toolName := jostr c "toolName",
+                 toolVersion := jostr c "toolVersion", location := jostr c "location", comment := jostr c "comment",
+                 authors := (jarr c "authors").toList.map fun a =>
+                   { name := jostr a "name", role := jostr a "role", email := jostr a "email", phone := jostr a "phone" } },
+    process := jostr j "process",
+    rootHash := match (j.getObjVal? "roothash").toOption with
+      | some (.obj o) => some (xrecordOf (.obj o))
+      | _ => none,
+    ignore := jstrs j "ignore",
+    records := (jarr j "records").toList.map xrecordOf,
+    refs := (jarr j "refs").toList.map fun r => { path := jostr r "path", c4 := jostr r "c4" } }
+
+def jopts (o : Option String) : Json := match o with | some s => Json.str s | none => Json.null
+
+open MhlModel.Xml in
+partial def elemJ : Elem → Json
+  | .mk t a x cs => Json.mkObj [("tag", t), ("attrs", Json.mkObj (a.map fun (k, v) => (k, Json.str v))),
+      ("text", jopts (normText x)), ("children", Json.arr (cs.map elemJ).toArray)]
+
+open MhlModel.Xml in
+def xentryJ (e : XEntry) : Json :=
+  Json.mkObj [("fmt", e.fmt), ("digest", e.digest), ("action", jopts e.action), ("hashdate", jopts e.hashdate), ("shash", jopts e.shash)]
+
+open MhlModel.Xml in
+def xrecordJ (r : XRecord) : Json :=
+  Json.mkObj [("path", r.path), ("isDir", r.isDir), ("size", match r.size with | some n => Json.num n | none => Json.null),
+    ("lastmod", jopts r.lastmod), ("prev", jopts r.prev), ("entries", Json.arr (r.entries.map xentryJ).toArray)]
+
+open MhlModel.Xml in
+def xgenJ (g : XGen) : Json :=
+  Json.mkObj [("creator", Json.mkObj [("creationdate", jopts g.creator.creationdate), ("hostname", jopts g.creator.hostname),
+      ("toolName", jopts g.creator.toolName), ("toolVersion", jopts g.creator.toolVersion),
+      ("location", jopts g.creator.location), ("comment", jopts g.creator.comment),
+      ("authors", Json.arr (g.creator.authors.map fun a => Json.mkObj [("name", jopts a.name), ("role", jopts a.role),
+        ("email", jopts a.email), ("phone", jopts a.phone)]).toArray)]),
+    ("process", jopts g.process),
+    ("roothash", match g.rootHash with | some r => xrecordJ r | none => Json.null),
+    ("ignore", Json.arr (g.ignore.map Json.str).toArray),
+    ("records", Json.arr (g.records.map xrecordJ).toArray),
+    ("refs", Json.arr (g.refs.map fun r => Json.mkObj [("path", jopts r.path), ("c4", jopts r.c4)]).toArray)]
+
 /-! ### commands -/
 
 def envOf (st : DState) (j : Json) (sub : Node) : Env :=
@@ -277,6 +338,16 @@ def step (st : DState) (j : Json) : DState × Json :=
     (st, Json.mkObj [("hit", fragmentMatcher (jstrs j "patterns") (jpath j "path"))])
   | "genname" =>
     (st, Json.mkObj [("n", match parseGenName (jstr j "name") with | some n => Json.num n | none => Json.null)])
+  | "xml" =>
+    let g := xgenOf ((j.getObjVal? "gen").toOption.getD Json.null)
+    let e := Xml.toXml g
+    (st, Json.mkObj [("tree", elemJ e), ("parsed", xgenJ (Xml.parse e)), ("norm", xgenJ (Xml.norm g))])
+  | "xmlchain" =>
+    let cs : List Xml.XChainEntry := (jarr j "entries").toList.map fun c =>
+      { seq := jostr c "seq", path := jostr c "path", fmt := jostr c "fmt", digest := jostr c "digest" }
+    let e := Xml.chainToXml cs
+    (st, Json.mkObj [("tree", elemJ e), ("parsed", Json.arr ((Xml.parseChain e).map fun c =>
+      Json.mkObj [("seq", jopts c.seq), ("path", jopts c.path), ("fmt", jopts c.fmt), ("digest", jopts c.digest)]).toArray)])
   | "iso" =>
     -- zone: base offset and a list of [instant, offset] transitions (ascending)
     let base := (j.getObjValAs? Int "base").toOption.getD 0
